@@ -113,6 +113,7 @@ def outline_case(draw):
     if big == "tall" and not outline["ex"]:
         big = None
     return {"outline": outline, "schema": draw(st.sampled_from(SCHEMAS)), "edits": edits, "big": big,
+            "preview": draw(st.sampled_from([0, 0, 1, 2, 3])),
             "in_rule": draw(st.booleans()), "noise": draw(st.lists(st.integers(0, 200), max_size=6))}
 
 
@@ -220,6 +221,33 @@ def check(case):
     if template_snapshot(oobj) != before:
         res.fail("C06.template-changed", "outline template changed by building its scenarios: %r -> %r"
                  % (before, template_snapshot(oobj)))
+    # -- the public helpers that render ONE outline step for ONE row (a hook that previews the steps of a row):
+    #    they return a rendered CLONE; the template and every later expansion stay as they are
+    if case.get("preview") and oobj.steps:
+        import warnings
+        from behave.model import ScenarioOutlineBuilder
+        rows = [(ex, r) for ex in oobj.examples if ex.table is not None for r in ex.table.rows]
+        if rows:
+            ex_obj, row = rows[case["preview"] % len(rows)]
+            rowdict = dict(zip(ex_obj.table.headings, row.cells))
+            for k, step in enumerate(oobj.steps):
+                with warnings.catch_warnings():
+                    warnings.simplefilter("ignore")
+                    clone = step.set_values(row) if (k + case["preview"]) % 2 else \
+                        ScenarioOutlineBuilder.make_step_for_row(step, row)
+                if clone is step:
+                    res.fail("C06.template-changed", "rendering outline step #%d for one row returned the outline step itself" % k)
+                elif clone.name != subst(outline["steps"][k]["name"], rowdict):
+                    res.fail("C06.step-name", "[row preview] step #%d rendered as %r, expected %r"
+                             % (k, clone.name, subst(outline["steps"][k]["name"], rowdict)))
+            res.label("row-preview")
+            if template_snapshot(oobj) != before:
+                res.fail("C06.template-changed", "rendering the outline steps for one row changed the outline template: "
+                         "%r -> %r" % (before, template_snapshot(oobj)))
+            for ex_obj2 in oobj.examples:
+                if ex_obj2.table is not None:
+                    ex_obj2.table.modified = True       # what any table edit does: the rows are expanded again
+            compare(res, actual_scenarios(oobj), want, "after a row preview")
     # -- table API edits
     edits = case.get("edits") or []
     applied = 0
@@ -360,7 +388,7 @@ def explore(rec):
 def required_labels(tier):
     return ["rows:3", "blocks:0", "blocks:2", "column-orders-differ", "parametrised-tag", "placeholder-in-docstring",
             "placeholder-in-table", "schema", "table-edits", "table-edits:remove_columns-partly-done",
-            "table-edits:failed-build-then-rebuilt", "big:wide", "big:tall", "big:sections"]
+            "table-edits:failed-build-then-rebuilt", "big:wide", "big:tall", "big:sections", "row-preview"]
 
 
 KNOWN_PREDICATES = {}
